@@ -10,6 +10,8 @@
 (*   am    : Seq(Int) (kind "am": Grid.antimeridian_face_indices)          *)
 (*   crs_ok: the CRS the object declares is the requested one              *)
 (*   closed: Seq(BOOLEAN) (kind "line": line j ends where it starts)       *)
+(*   frame_ok: (kind "gdf") the frame's class belongs to the requested     *)
+(*           engine's package                                              *)
 (* Verdict: <<"V", id, failed clause names, facts>>; records on which the  *)
 (* property leaves the answer open print <<"N", id, reason>>.              *)
 (***************************************************************************)
@@ -79,6 +81,8 @@ Clauses(r) ==
   [ AmIndices      |-> r.kind = "am" =>
                           /\ \A j \in 1..(Len(r.am) - 1) : r.am[j] < r.am[j + 1]
                           /\ { r.am[j] : j \in 1..Len(r.am) } = CrossSet(m, k, sg),
+    \* the frame is one of the requested engine
+    FrameOfEngine  |-> (r.kind = "gdf" /\ Has(r, "frame_ok")) => r.frame_ok,
     DeclaredCRS    |-> (geo /\ Has(r, "crs_ok")) => r.crs_ok,
     VerticesAreCorners |-> geo => \A j \in 1..Len(r.rows) : \A q \in 1..Len(r.rows[j]) : AllMatched(r.rows[j][q]),
     \* exclude: dropped set = crossing set, polygon j <-> j-th non-crossing face; ignore: polygon i <-> face i
